@@ -553,8 +553,17 @@ def _split(segs, at):
 
 def flatten_bytes(v):
     v = ptr_term(v)
-    if v[0] == 'agg' and v[1] == 'array':
-        return [(1, ('val', o)) for o in v[3]]
+    if v[0] == 'agg' and (v[1] == 'array' or (v[2] is None and v[1].startswith('[u8;'))):
+        # a literal byte array: runs of equal constant bytes become fill segments
+        out = []
+        for o in v[3]:
+            if out and out[-1][1][0] == 'fill' and out[-1][1][1] == o and is_int_const(o):
+                out[-1] = (out[-1][0] + 1, out[-1][1])
+            elif is_int_const(o):
+                out.append((1, ('fill', o)))
+            else:
+                out.append((1, ('val', o)))
+        return out
     if v[0] != 't':
         return None
     op, a = v[1], v[2]
@@ -566,6 +575,21 @@ def flatten_bytes(v):
         return [(a[1], ('val', a[0]))]
     if op == 'call' and a[0].endswith('vec::from_elem') and len(a) >= 4 and is_int_const(a[3]):
         return [(a[3][1], ('fill', a[2]))] if a[3][1] else []
+    if op == 'subbytes' and is_int_const(a[1]) and is_int_const(a[2]):
+        x = flatten_bytes(a[0])
+        lo, hi = a[1][1], a[2][1]
+        if x is None or hi > sum(l for l, _ in x) or lo > hi:
+            return None
+        x = _split(x, lo)
+        x = _split(x, hi) if x is not None else None
+        if x is None:
+            return None
+        out, off = [], 0
+        for l, c in x:
+            if lo <= off < hi:
+                out.append((l, c))
+            off += l
+        return out
     if op == 'concat':
         x, y = flatten_bytes(a[0]), flatten_bytes(a[1])
         return None if x is None or y is None else x + y
@@ -627,6 +651,30 @@ def buf_index(eng, st, fr, args, fn, site):
             return args[0]
         return None
     return T('subslice', ptr_term(args[0]), C(r[0], 'usize'), C(r[1], 'usize'))
+
+
+def slice_get(eng, st, fr, args, fn, site):
+    """<[T]>::get(range) on a buffer whose contents are known: Some(sub-buffer) when the range is inside, None otherwise"""
+    r = args[1]
+    lo = hi = None
+    if r[0] == 'agg' and r[1].split('<')[0].endswith('::RangeTo') and len(r[3]) == 1 and is_int_const(r[3][0]):
+        lo, hi = 0, r[3][0][1]
+    else:
+        rr = _range_of(r)
+        if rr is not None:
+            lo, hi = rr
+    if lo is None:
+        return None
+    buf = deref(eng, st, ptr_term(args[0]))
+    n = bytes_len(buf)
+    if n is None:
+        return None
+    if hi <= n and lo <= hi:
+        h = ('H', 400000 + st.next_heap)
+        st.next_heap += 1
+        st.store[(h, ())] = T('subbytes', buf, C(lo, 'usize'), C(hi, 'usize'))
+        return ('agg', OPT, 'Some', (('ref', (h, ())),))
+    return ('agg', OPT, 'None', ())
 
 
 def copy_from_slice(eng, st, fr, args, fn, site):
@@ -743,6 +791,7 @@ SUMMARIES = {
     '<std::vec::Vec<T, A> as std::ops::IndexMut<I>>::index_mut': buf_index,
     '<std::vec::Vec<T, A> as std::ops::Index<I>>::index': buf_index,
     'std::slice::<impl [T]>::copy_from_slice': copy_from_slice,
+    'std::slice::<impl [T]>::get': slice_get,
     'std::slice::<impl [T]>::clone_from_slice': copy_from_slice,
     'std::slice::<impl [T]>::len': buf_len,
     'std::vec::Vec::<T, A>::len': buf_len,
